@@ -64,6 +64,10 @@ every order, depth <= 3 quick on 3 configurations / <= 4 thorough on 2) x the 4 
 two came to record (record=True in the constructor | built without, one print, then
 `.record = True`); every console has its own twin and model and all are observed after
 every history, so what one console wrote, exported or cleared must not show in the other.
+"TH" = thread part (E3, vf/sched.py): A exports with clear=True while B prints / captures on
+the SAME console; 12 harnesses, all schedules with <= 1 (quick) / 2 (thorough) preemptions at
+lock operations, file writes and lines of export_text / export_html / _render_buffer /
+_check_buffer; nothing written may be lost or exported twice.
 Shards = configuration x first event[s] (x construction modes); `states` is the sum of the
 per-shard distinct canonical states (a state reached under two first events is counted
 twice; core shards count only the histories of the additional depth).
@@ -757,7 +761,8 @@ _PAIR_ALPHABET = [(side, ev) for ev in PAIR for side in (0, 1)]
 def plan(tier, seed):
     import rich.console, rich.rule, rich.table, rich.styled, rich.markup, rich.containers  # noqa: F401,E401 -- forked workers inherit the imports
     # the small strata first: if the wall cap triggers, it cuts the last level of the full alphabet
-    shards = []
+    nsplit = 1 if tier == "quick" else 8
+    shards = [{"alpha": "TH", "h": i, "i": k, "n": nsplit} for i in range(len(TH_HARNESSES)) for k in range(nsplit)]
     for ci in _pair_configs(tier):
         for mi in range(len(MODES)):
             for fi in range(len(_PAIR_ALPHABET)):
@@ -828,6 +833,209 @@ def _explore(cfg, root, alphabet, maxdepth, res, count_from=1, modes=("ctor",)):
     return seen
 
 
+# ------------------------------------------------------------------ part TH: two threads, ONE recording console (E3, vf/sched.py)
+# A exports with clear=True while B prints (or captures and prints) on the same console.  Scheduling points:
+# every cooperative lock operation, every write to the file and every executed line of Console.export_text /
+# export_html / _render_buffer / _check_buffer (line events restricted to those code objects).  Every execution
+# with <= bound preemptions is run.  Oracle, after both threads finished: the text A's clearing export returned
+# followed by a final non-clearing export must be exactly the text that was written (to the file or to the
+# capture), each line once and in order; the file holds exactly what was printed outside the capture block and
+# the capture returns what was printed inside.
+TH_FIRST = "first <line> & 0"
+TH_P1 = "late <b> & 1"
+TH_P2 = "later & 2"
+TH_A = [("xtext", False), ("xtext", True), ("xhtml", False), ("xhtml", True)]
+TH_B = ["print1", "print2", "capture"]
+TH_HARNESSES = [(a, b) for b in TH_B for a in TH_A]
+TH_LINES_OF = ("Console.export_text", "Console.export_html", "Console._render_buffer", "Console._check_buffer")
+TH_STOP_AFTER_VIOLATIONS = 8
+
+
+def _th_bound(tier):
+    return 1 if tier == "quick" else 2
+
+
+def _th_setup():
+    """forked child only: installs the scheduler, line events on the four functions only"""
+    import sys
+    from .. import sched
+    sched.install()
+    mon = sys.monitoring
+    for name in sched.WHITELIST:
+        for co, qual in sched._code_objects(sys.modules[name]).items():
+            base = ".".join(qual.split(".")[:2])
+            on = name == "rich.console" and base in TH_LINES_OF
+            mon.set_local_events(sched.TOOL, co, mon.events.LINE if on else 0)
+    sched.SKIP_CODES = frozenset()
+
+
+def _th_make(hid):
+    akind, bkind = hid
+
+    def make(s):
+        from rich.console import Console
+        from .. import sched
+        f = sched.RecFile()
+        con = Console(file=f, width=40, height=25, force_terminal=False, color_system=None, legacy_windows=False,
+                      record=True, _environ={}, get_datetime=lambda: _FIXED_DT, get_time=lambda: 0.0)
+        con.print(TH_FIRST)
+        out = {}
+
+        def A():
+            if akind[0] == "xtext":
+                out["A"] = con.export_text(clear=True, styles=akind[1])
+            else:
+                out["A"] = con.export_html(clear=True, inline_styles=akind[1])
+
+        def B():
+            if bkind == "capture":
+                with con.capture() as cap:
+                    con.print(TH_P1)
+                out["cap"] = cap.get()
+                con.print(TH_P2)
+            else:
+                con.print(TH_P1)
+                if bkind == "print2":
+                    con.print(TH_P2)
+
+        def finish():
+            try:
+                final = con.export_text(clear=False)
+            except Exception as e:      # noqa: BLE001
+                final = e
+            return {"A": out.get("A"), "cap": out.get("cap"), "final": final, "file": f.getvalue()}
+        return {"A": A, "B": B}, finish
+    return make
+
+
+def _th_judge(hid, s, obs):
+    """-> (signature, [(key, detail)])"""
+    akind, bkind = hid
+    vio = []
+    if s.problem:
+        vio.append(("threads/%s" % s.problem.split(":")[0], s.problem))
+    for tid, e in s.errors:
+        vio.append(("threads/exception/%s" % type(e).__name__, "thread %s raised %r" % (tid, e)))
+    lines = [TH_FIRST, TH_P1] + ([TH_P2] if bkind != "print1" else [])
+    want_total = "".join(x + "\n" for x in lines)
+    want_file = "".join(x + "\n" for x in lines if not (bkind == "capture" and x == TH_P1))
+    share = -1
+    if not vio:
+        a = obs["A"]
+        if akind[0] == "xhtml":
+            a_text = _html_text(a)
+        else:
+            a_text = _chars(_norm(a))
+        final = obs["final"]
+        if isinstance(final, Exception) or a_text is None:
+            vio.append(("threads/export-failed", "A %r final %r" % (a, final)))
+        else:
+            total = a_text + final
+            if total != want_total:
+                got_lines = total.split("\n")
+                lost = [x for x in lines if x not in got_lines]
+                twice = [x for x in lines if got_lines.count(x) > 1]
+                key = ("threads/export/written-line-in-no-export" if lost else
+                       "threads/export/line-exported-twice" if twice else "threads/export/order-or-content-differs")
+                vio.append((key, "clearing %s returned %r, the final export_text(clear=False) %r; written: %r"
+                            % (akind, a_text, final, want_total)))
+            share = sum(1 for x in lines if x in a_text.split("\n"))
+        if obs["file"] != want_file:
+            leak = bkind == "capture" and TH_P1 in obs["file"]
+            vio.append(("threads/capture/output-reached-the-file" if leak else "threads/file-differs",
+                        "file %r, printed outside capture blocks %r" % (obs["file"], want_file)))
+        if bkind == "capture" and obs["cap"] != TH_P1 + "\n":
+            vio.append(("threads/capture/result-differs", "Capture.get() %r, printed inside the block %r"
+                        % (obs["cap"], TH_P1 + "\n")))
+    dev = s.deviations_before(len(s.choices))
+    return ("TH", akind, bkind, min(dev, 3), share, bool(vio)), vio
+
+
+def _in_child(fn):
+    """runs fn() in a forked child (the scheduler's monkey-patching and monitoring never touch the worker)"""
+    import os
+    import pickle
+    import traceback
+    from ..par import MachineryError
+    r, w = os.pipe()
+    pid = os.fork()
+    if pid == 0:
+        try:
+            os.close(r)
+            try:
+                data = pickle.dumps(("ok", fn()))
+            except BaseException:           # noqa: BLE001
+                data = pickle.dumps(("err", traceback.format_exc()))
+            with os.fdopen(w, "wb") as f:
+                f.write(data)
+        finally:
+            os._exit(0)
+    os.close(w)
+    with os.fdopen(r, "rb") as f:
+        data = f.read()
+    os.waitpid(pid, 0)
+    st, out = pickle.loads(data) if data else ("err", "child process died without an answer")
+    if st != "ok":
+        raise MachineryError("child failed: %s" % out)
+    return out
+
+
+def _th_explore(hid, bound, first_level=(0, 1)):
+    from .. import sched
+    _th_setup()
+    recs = []
+    bad = [0]
+
+    def judge_exec(s, obs):
+        sig, vio = _th_judge(hid, s, obs)
+        ch = list(s.choices)
+        while ch and ch[-1] == 0:
+            ch.pop()
+        if vio:
+            # a counterexample must reproduce identically before it is reported
+            s2, obs2 = sched.run_once(_th_make(hid), ch, "line", 0)
+            _sig2, vio2 = _th_judge(hid, s2, obs2)
+            if [k for k, _ in vio2] != [k for k, _ in vio]:
+                raise RuntimeError("schedule not reproducible: %r then %r (choices %r)" % (vio, vio2, ch))
+            bad[0] += 1
+        recs.append((sig, vio, ch, len(s.choices)))
+
+    st = sched.explore(_th_make(hid), bound, judge_exec, granularity="line", timeout_budget=0,
+                       first_level=first_level,
+                       stop=lambda: deadline_passed() or bad[0] >= TH_STOP_AFTER_VIOLATIONS)
+    return {"recs": recs, "stats": st, "stopped_on_violations": bad[0] >= TH_STOP_AFTER_VIOLATIONS}
+
+
+def _part_TH(sh, tier, res):
+    hid = TH_HARNESSES[sh["h"]]
+    bound = _th_bound(tier)
+    out = _in_child(lambda: _th_explore(hid, bound, (sh.get("i", 0), sh.get("n", 1))))
+    for sig, vio, ch, ncp in out["recs"]:
+        res.evaluations += 1
+        res.sig(sig, nontrivial=sig[3] > 0)
+        res.counters["max_choice_points_per_schedule"] = max(res.counters.get("max_choice_points_per_schedule", 0), ncp)
+        for key, detail in vio:
+            res.violate(key, {"part": "TH", "h": [list(hid[0]), hid[1]], "choices": ch}, detail)
+    res.count("schedules", out["stats"]["executions"])
+    if out["stats"]["complete"]:
+        res.count("thread_harness_shards_complete")
+    elif not out["stopped_on_violations"]:
+        res.capped = True
+    if sh["h"] == 0 and sh.get("i", 0) == 0:
+        res.sample({"part": "TH", "harness": [list(hid[0]), hid[1]], "bound": bound}, limit=1)
+
+
+def _replay_TH(case):
+    hid = (tuple(case["h"][0]), case["h"][1])
+
+    def child():
+        from .. import sched
+        _th_setup()
+        s, obs = sched.run_once(_th_make(hid), list(case["choices"]), "line", 0)
+        return _th_judge(hid, s, obs)[1]
+    return _in_child(child)
+
+
 def _cold_caches():
     """Style.parse hands out shared Style objects and a Style memoises its SGR string; every shard /
     replay starts with fresh objects so that a verdict never depends on what ran before in the process."""
@@ -839,6 +1047,9 @@ def _cold_caches():
 def run_shard(sh, tier, seed):
     res = Result()
     _cold_caches()
+    if sh["alpha"] == "TH":
+        _part_TH(sh, tier, res)
+        return res
     cfg = CONFIGS[sh["cfg"]]
     full_d, core_d, pair_d = _depths(tier)
     if sh["alpha"] == "full":
@@ -888,6 +1099,14 @@ def describe(tier, seed, res):
              "entities, bell, capture enter/exit, export_text(clear), export_html(clear, inline), log) x 4 ways the two came to "
              "record (record=True in the constructor | built without, one print, then .record = True) on %d configurations"
              % (pair_d, len(PAIR), len(_pair_configs(tier))))
+    rule += ("; plus a thread part (E3, vf/sched.py): two real threads on ONE recording console, A = one clearing export "
+             "(export_text styles F|T, export_html inline F|T), B = one print | two prints | a capture block around a print, then a "
+             "print (%d harnesses); scheduling points = cooperative lock operations, file writes and the executed lines of "
+             "Console.export_text / export_html / _render_buffer / _check_buffer; every schedule with <= %d preemption(s), %d schedules; "
+             "after both threads: A's export followed by a final non-clearing export must be exactly the text written, each line "
+             "once and in order, the file holds what was printed outside the block, the capture what was printed inside; a "
+             "counterexample schedule is re-executed and must reproduce before it is reported"
+             % (len(TH_HARNESSES), _th_bound(tier), c.get("schedules", 0)))
     rule += (". After every history, for every console: the file, the capture result, a clearing export's return value "
              "and the four non-clearing exports are judged; directly after a clearing export all four must come out empty "
              "(the styled one as the empty string: it also shows recorded control codes). A history reaching a canonical "
@@ -907,6 +1126,7 @@ def describe(tier, seed, res):
             "capture blocks are not nested; export inside an open block sees only what was flushed before",
             "recording switched on after construction records from that moment on; a console that has written nothing since exports the empty string",
             "a history that violates is reported and not extended",
+            "thread part: lines of other functions (rendering, Console.print itself) are not scheduling points; they touch per-thread buffers only (partial-order reduction)",
             "canonical state = per console (file, record segments, thread buffer, buffer depth, LogRender._last_time, reference model); theme stack and render hooks are not touched by these events",
             "states = sum over shards (configuration x first event[s]) of distinct canonical states; core shards count only histories of the additional depth",
             "the twin replays only the prefix's log events before the judged event (nothing else changes what a non-recording console writes later); every alarm, all histories of length <= 2 and every 64th one are re-run in full lock-step, whose verdict is the one reported",
@@ -920,6 +1140,9 @@ def describe(tier, seed, res):
             "depth_bound_full_alphabet": full_d,
             "depth_bound_core_alphabet": core_d,
             "depth_bound_two_consoles": pair_d,
+            "schedules": c.get("schedules", 0),
+            "preemption_bound": _th_bound(tier),
+            "thread_harness_shards_complete": c.get("thread_harness_shards_complete", 0),
             "frontier_at_depth_cap": c.get("frontier_at_depth_cap", 0),
             "lockstep_reruns": c.get("lockstep_reruns", 0),
             "fast_path_verdict_differs": c.get("fast_path_verdict_differs", 0),
@@ -928,6 +1151,8 @@ def describe(tier, seed, res):
 
 
 def replay(case):
+    if case.get("part") == "TH":
+        return _replay_TH(case)
     cfg = tuple(case["config"])
     if len(cfg) == 3:
         cfg += (None,)
